@@ -378,6 +378,11 @@ func fineAxes(p int) []fineAxis {
 // compListGen draws a component list of 0..4 entries, each field independently absent/valid/invalid.
 var hashLens = []int{32, -1, 0, 31, 33, 47, 48, 49, 63, 64, 65} // -1 = absent; index 0 = default
 
+// oddCompTexts: texts of a component that end up in error messages and labels next to a malformed sibling field:
+// printf verbs taking an operand, more than 64 BYTES in fewer than 64 characters (and just above 64 characters), a
+// long ASCII text, a text that reads like fmt's own error marker.
+var oddCompTexts = []string{"100%s signed %d", "3.4.2%2Bb7 %v", strings.Repeat("é", 40), strings.Repeat("é", 61) + "abcd", strings.Repeat("x", 65), strings.Repeat("y", 300), "%!w(MISSING)"}
+
 func genCompList(c *choice.Ctx) []*refmodel.Comp {
 	n := []int{1, 0, 2, 3, 4}[c.Choose("ncomps", 5)]
 	var out []*refmodel.Comp
@@ -387,29 +392,38 @@ func genCompList(c *choice.Ctx) []*refmodel.Comp {
 			out = append(out, nil)
 			continue
 		}
-		switch c.Choose(fmt.Sprintf("c%d.mtype", i), 3) {
+		switch k := c.Choose(fmt.Sprintf("c%d.mtype", i), 3+len(oddCompTexts)); k {
+		case 0:
 		case 1:
 			sc.MType = sp("BL %w")
 		case 2:
 			sc.MType = sp("")
+		default:
+			sc.MType = sp(oddCompTexts[k-3])
 		}
 		if l := hashLens[c.Choose(fmt.Sprintf("c%d.mval", i), len(hashLens))]; l >= 0 {
 			sc.MVal = bp(pat(l, byte(i)*16+1))
 		}
-		switch c.Choose(fmt.Sprintf("c%d.version", i), 3) {
+		switch k := c.Choose(fmt.Sprintf("c%d.version", i), 3+len(oddCompTexts)); k {
+		case 0:
 		case 1:
 			sc.Version = sp("2.0%20rc1%") // (a text with per-cent signs: it ends up in error messages)
 		case 2:
 			sc.Version = sp("")
+		default:
+			sc.Version = sp(oddCompTexts[k-3])
 		}
 		if l := hashLens[c.Choose(fmt.Sprintf("c%d.signer", i), len(hashLens))]; l >= 0 {
 			sc.Signer = bp(pat(l, byte(i)*16+2))
 		}
-		switch c.Choose(fmt.Sprintf("c%d.mdesc", i), 3) {
+		switch k := c.Choose(fmt.Sprintf("c%d.mdesc", i), 3+len(oddCompTexts)); k {
+		case 0:
 		case 1:
 			sc.MDesc = sp("TF-M_SHA256MemPreXIP")
 		case 2:
 			sc.MDesc = sp("")
+		default:
+			sc.MDesc = sp(oddCompTexts[k-3])
 		}
 		out = append(out, sc)
 	}
